@@ -6,8 +6,10 @@ print("| id | theorems (refuted / partial) | Coq lines | tie: evaluations (disti
 print("|---|---|---|---|---|---|")
 for l in open(os.path.join(V, "properties.jsonl")):
     pid = json.loads(l)["id"]
-    pf = os.path.join(V, "coq", pid, "Properties_%s.v" % pid)
-    th = re.findall(r"^\s*(?:Theorem|Corollary)\s+([A-Za-z0-9_']+)", open(pf).read(), re.M) if os.path.exists(pf) else []
+    th = []
+    for pf in [os.path.join(V, "coq", pid, "Properties_%s.v" % pid)] + sorted(glob.glob(os.path.join(V, "coq", pid, "Properties_%s_*.v" % pid))):
+        if os.path.exists(pf):
+            th += re.findall(r"^\s*(?:Theorem|Corollary)\s+([A-Za-z0-9_']+)", open(pf).read(), re.M)
     ref = [t for t in th if "refuted" in t]; par = [t for t in th if "partial" in t]
     lines = sum(len(open(f).read().split("\n")) for f in glob.glob(os.path.join(V, "coq", pid, "*.v")))
     ev = {}
